@@ -27,6 +27,9 @@ pub struct Swarm {
     /// property names / enum values that need escaping or sanitising, or that
     /// sanitise to the same Rust identifier
     pub awkward: bool,
+    /// most optional properties (and many named types) carry a default; few
+    /// properties are required
+    pub dense_defaults: bool,
     /// 0 none, 1 valid only, 2 valid and invalid
     pub defaults: u8,
     /// 0 no back references, 1 some, 2 many
@@ -52,6 +55,8 @@ pub enum Focus {
     Cycles,
     /// C12: hash keys (H4)
     Determinism,
+    /// C06 value stage: valid defaults, densely placed, on every type kind
+    Values,
     /// repository fixtures (real-world schema shapes) inside histories
     Fixtures,
     /// the two large fixtures (github.json, vega.json), hash keys only
@@ -72,6 +77,7 @@ impl Swarm {
             inline: rng.chance(1, 2),
             formats: rng.chance(1, 2),
             awkward: false,
+            dense_defaults: false,
             defaults: *rng.pick(&[0u8, 0, 1, 1, 1]),
             cycles: *rng.pick(&[0u8, 0, 1, 1, 2]),
             shuffle_within_component: false,
@@ -107,6 +113,17 @@ impl Swarm {
                 s.relation = Some("H4");
                 s.readd = false;
             }
+            Focus::Values => {
+                s.defaults = 1;
+                s.dense_defaults = true;
+                s.n_components = rng.range(1, 2);
+                s.max_defs = rng.range(2, 5);
+                s.enums = true;
+                s.tagged = rng.chance(3, 4);
+                s.cycles = 0;
+                s.readd = false;
+                s.relation = None;
+            }
             Focus::Fixtures | Focus::FixturesBig => {
                 s.n_components = rng.range(0, 2);
                 s.relation = *rng.pick(&[None, Some("H3"), Some("H4"), Some("H4")]);
@@ -116,6 +133,7 @@ impl Swarm {
         s.awkward = match focus {
             Focus::Compile => rng.chance(1, 2),
             Focus::Defaults => rng.chance(1, 3),
+            Focus::Values => rng.chance(1, 2),
             Focus::Fixtures | Focus::FixturesBig => false,
             _ => rng.chance(1, 4),
         };
@@ -361,7 +379,7 @@ fn gen_object(rng: &mut Rng, cx: &mut Ctx, depth: u32, lo: usize, hi: usize) -> 
     for (p, scalar) in names {
         let t = if scalar { gen_scalar(rng, cx.sw) } else { gen_type(rng, cx, depth, true) };
         props.insert(p.clone(), t);
-        if rng.chance(3, 5) {
+        if if cx.sw.dense_defaults { rng.chance(1, 5) } else { rng.chance(3, 5) } {
             required.push(json!(p));
         }
     }
@@ -583,7 +601,7 @@ pub fn gen_instance(rng: &mut Rng, schema: &Value, defs: &Defs, depth: u32) -> O
         }
         "integer" => {
             let min = o.get("minimum").and_then(|m| m.as_f64()).unwrap_or(0.0) as i64;
-            let v = min + rng.below(100) as i64;
+            let v = if rng.chance(1, 6) { min } else { min + rng.below(100) as i64 };
             let unsigned = o.get("format").and_then(|f| f.as_str()).map(|f| f.starts_with("uint")).unwrap_or(false);
             if o.get("minimum").is_none() && !unsigned && rng.chance(1, 3) {
                 json!(-v)
@@ -923,7 +941,7 @@ fn add_defaults(rng: &mut Rng, sw: &Swarm, schema: &mut Value, defs: &Defs, top:
             if k == "type" || k == "t" || k == "c" {
                 continue;
             }
-            if !req.contains(k) && rng.chance(2, 5) {
+            if !req.contains(k) && if sw.dense_defaults { rng.chance(4, 5) } else { rng.chance(2, 5) } {
                 let invalid = sw.defaults == 2 && rng.chance(1, 4);
                 let v = if invalid {
                     gen_invalid_instance(rng, p, defs)
@@ -948,7 +966,7 @@ fn add_defaults(rng: &mut Rng, sw: &Swarm, schema: &mut Value, defs: &Defs, top:
             }
         }
     }
-    if top && rng.chance(1, 6) && !o.contains_key("$ref") && !o.contains_key("oneOf") && !o.contains_key("anyOf") {
+    if top && if sw.dense_defaults { rng.chance(1, 2) } else { rng.chance(1, 6) } && !o.contains_key("$ref") && !o.contains_key("oneOf") && !o.contains_key("anyOf") {
         let me = Value::Object(o.clone());
         let invalid = sw.defaults == 2 && rng.chance(1, 4);
         let v = if invalid {
